@@ -5,6 +5,7 @@ import Libvna.Gen.Conv2Table
 import Libvna.Driver.VDataDrv
 import Libvna.Model.ConvN
 import Libvna.Driver.NumDrv
+import Libvna.Driver.FFDrv
 import Libvna.Driver.PropDrv
 import Libvna.Driver.CalDrv
 open Libvna
@@ -84,6 +85,7 @@ def step (st : DState) (line : String) : DState × String :=
   | "conv" :: rest => (st, stepConv rest)
   | "convn" :: rest => (st, stepConvN rest)
   | "num" :: rest => (st, stepNum rest)
+  | "ff" :: rest => (st, Libvna.Drv.stepFF rest)
   | "cal" :: rest => let (c, o) := Libvna.Drv.stepCal st.cal rest; ({ st with cal := c }, o)
   | "pt" :: rest => let (p, o) := Libvna.Drv.stepPt st.pt rest; ({ st with pt := p }, o)
   | "vd" :: rest => let (v, o) := Libvna.Drv.stepVd st.vd rest; ({ st with vd := v }, o)
